@@ -5,7 +5,7 @@ The descriptor never contains random values; the generator draws them from
 """
 import numpy as np
 
-KINDS = ['noise', 'tones', 'ar', 'trend', 'int', 'const', 'impulse', 'alt', 'dyn', 'exact']
+KINDS = ['noise', 'tones', 'ar', 'trend', 'int', 'const', 'impulse', 'alt', 'dyn', 'exact', 'sparse']
 
 
 def stable_poly(rng, order, cplx, rmax=0.9):
@@ -91,6 +91,12 @@ def data(desc, rng):
     elif kind == 'impulse':
         x = np.zeros(N, dtype=complex if cplx else float)
         x[int(rng.integers(0, N))] = (1 + 1j) if cplx else 1.0
+    elif kind == 'sparse':
+        # a few non-zero leading samples, exact zeros afterwards (autocorrelation lags exactly 0 beyond K-1)
+        K = int(desc.get('K', 2 + rng.integers(0, 2)))
+        x = np.zeros(N, dtype=complex if cplx else float)
+        vals = rng.integers(1, 5, K) * rng.choice([-1, 1], K)
+        x[:min(K, N)] = (vals + (1j * rng.integers(-3, 4, K) if cplx else 0))[:min(K, N)]
     elif kind == 'alt':
         x = ((-1.0) ** n) * rng.uniform(0.5, 2) + 0.01 * noise(rng, N, cplx)
     elif kind == 'dyn':
